@@ -11,6 +11,7 @@ NT_RULE = {
     "C02": "same traces; non-trivial when an owner named by the request has at least one shadowed entry in the pre-state",
     "C03": "same traces; non-trivial when a rejected or dry-run step occurs from a non-empty store",
     "C04": "validity family (range, length, pattern, max-elements, mandatory, leafref, must; validator switches); every TransactionSet is followed by a probe that submits the resulting configuration as one intent to an empty datastore; non-trivial when the verdict depends on a leaf outside the request or the request is rejected (counted by the trace spec)",
+    "C10": "namespace / presence / core / choice families; inside the device's Set every method of the SAME TargetSource is called (proto updates+deletes, JSON, JSON_IETF, XML for the 8 option combinations, and the full views) and decoded structurally; non-trivial when the change has at least one update and one delete",
     "C05": "same traces; non-trivial when a cancel/expiry has to restore at least one store entry and one device leaf",
     "C06": "same traces; non-trivial when a call names a wrong/stale id on an open transaction, a Set arrives while one is open, or a Set ends without apply",
     "C08": "choice family; non-trivial when the winning case of a choice changes",
@@ -147,7 +148,28 @@ def w_choice_winner_uninvolved(events, line):
     return all(leaves.get(l, {}).get("choice") and o not in owners and l not in involved for l, o in bad)
 
 
+def w_xml_leaflist_replace(events, line):
+    """C10.XmlSameDel fails only because an updated leaf-list puts operation="replace" on its PARENT element:
+    under NETCONF semantics the parent's other children are deleted, which the proto/JSON renderings do not do."""
+    e = events[line - 1]
+    ok = False
+    for s in e.get("sets", []):
+        if not s.get("hasenc"):
+            continue
+        pd = set(s["del"])
+        for x in s["enc"]["xml"]:
+            upd = {q[0] for q in x["upd"]}
+            xdel = set(x["del"]) | (set(x.get("replaceleaves") or []) - upd)
+            if xdel == pd:
+                continue
+            if not x["replaceon"] or set(x["del"]) != pd:
+                return False
+            ok = True
+    return ok
+
+
 WITNESS = {
+    "xml_leaflist_replace": w_xml_leaflist_replace,
     "choice_winner_uninvolved": w_choice_winner_uninvolved,
     "silent_read_failure": w_silent_read_failure,
     "rollback_unmanaged_overwritten": w_rollback_unmanaged_overwritten,
